@@ -136,7 +136,9 @@ def analyse(W, name, f, ctx, desc, path):
             items.append(("ok", "R4", f"{entry}: mode restored to {ini}"))
         if not body_mode_checked:
             items.append(("undecided", "R4", f"{entry}: with-body not reached"))
-    # ---- R5 mirrored copies
+    # ---- R5 mirrored copies (GCodeBuilder only: GCodeCore has no state object)
+    if W.cls.name != "GCodeBuilder":
+        return items
     st = path.heap[W.ref("state").addr]
     sm = resolve(st.fields.get("_current_distance_mode"), facts)
     if sm != tmode:
@@ -278,8 +280,23 @@ def run(check, repo, tier):
             motion_cmds.add(r["command"])
     for rid, floor in (("R3", 1000), ("R4", 1000), ("R5", 1000)):
         check.floor(not (counts.get(rid, 0) < floor), f"C01.{rid}: only {counts.get(rid, 0)} obligations decided (floor {floor})")
+    # the core class on its own (its set_distance_mode / set_axis / write are overridden by the builder)
+    core = CommandRun(repo, cls_name="GCodeCore", tier=tier, exclude=("write",), cm_body=("pass", "raise"), with_invalid=False,
+                      transform="identity", max_dev=3 if tier == "quick" else None)
+    core_n = 0
+    for r in core.run(analyse):
+        for it in r["items"]:
+            if it[0] == "ok":
+                check.ok(it[1], "GCodeCore." + it[2])
+                core_n += 1
+            elif it[0] == "undecided":
+                check.undecided(it[1], "GCodeCore." + it[2])
+            else:
+                check.violation(it[1], "GCodeCore:" + it[2], "[receiver GCodeCore] " + it[3], it[4])
+                core_n += 1
+    check.floor(core_n >= 300, f"C01: only {core_n} obligations decided for receiver GCodeCore (floor 300)")
     n1 = helper_forms(check, cr.program)
-    check.analysed = dict(cr.stats, helper_paths=n1)
+    check.analysed = dict(cr.stats, helper_paths=n1, gcodecore=core.stats)
     check.coverage["exhaustive"] = tier == "thorough"
     check.explanation = (
         "Symbolic translation validation of one call: the statements delivered on each abstract path are executed by an RS274 "
